@@ -367,6 +367,9 @@ inductive SV where
   | wrapStr (s : Str) (vo ts : Meth)
   /-- a value whose conversion throws TypeError -/
   | raise
+  /-- an accessor property: its getter returns `r` and makes the holder's property `hide`
+      non-enumerable while it runs -/
+  | getter (r : SV) (hide : Str)
 inductive SVs where
   | nil
   | cons (v : SV) (t : SVs)
@@ -487,6 +490,12 @@ def unbox (cv : Conv) : SV → SV
 
 def decimalNat (n : Nat) : Str := C06.Spec.decimalStr n
 
+/-- `holder.get(key)` / ES5 Str step 1: an accessor's getter runs.  What it does to the enumerability of
+    other properties has no effect: the names were collected before any property was read. -/
+def viaGet : SV → SV
+  | .getter r _ => r
+  | v => v
+
 /-- l.198-209 / ES5 Str step 2: an object whose `toJSON` is callable is replaced by the call's result -/
 def viaToJSON : SV → SV
   | .tojson r => r
@@ -497,7 +506,7 @@ mutual
 def walk (C : MCtx) : Nat → Nat → Str → SV → WR GV
   | 0, _, _, _ => .oof
   | fuel + 1, depth, key, v0 =>
-    let v1 := viaToJSON v0             -- l.198-209: toJSON
+    let v1 := viaToJSON (viaGet v0)    -- holder.get(key); toJSON
     let v2 := match C.repl with        -- l.211
       | some f => f key v1
       | none => v1
@@ -596,8 +605,14 @@ def rvOfM : JMs → RMs'
   | .cons k v t => .cons k (rvOf v) (rvOfM t)
 end
 
-/-- a reviver: (key, value) ↦ result, `none` = undefined -/
-abbrev Reviver := Str → RV → Option RV
+/-- what a reviver call does: its result (`none` = undefined) and, possibly, `delete this[del]` of
+    another (non-index) property of its holder while it runs -/
+structure RRes where
+  val : Option RV
+  del : Option Str
+
+/-- a reviver: (key, value) ↦ effect -/
+abbrev Reviver := Str → RV → RRes
 
 def RMs'.get (k : Str) : RMs' → Option RV
   | .nil => none
@@ -613,10 +628,10 @@ def RMs'.keys : RMs' → List Str
   | .cons k _ t => k :: RMs'.keys t
 
 mutual
-/-- builtinJSONReviveWalk(holder, name) with `value = holder.get(name)` passed in; returns the
-    reviver's result and the keys of the reviver calls in call order.  (Fuel: every call consumes one.) -/
-def reviveM (f : Reviver) : Nat → Str → RV → Option RV × List Str
-  | 0, _, _ => (none, [])
+/-- builtinJSONReviveWalk(holder, name) with `value = holder.get(name)` passed in; returns what the
+    reviver call did and the keys of the reviver calls in call order.  (Fuel: every call consumes one.) -/
+def reviveM (f : Reviver) : Nat → Str → RV → RRes × List Str
+  | 0, _, _ => (⟨none, none⟩, [])
   | fuel + 1, name, .arr l =>
     let r := reviveArrM f fuel 0 l
     (f name (.arr r.1), r.2 ++ [name])
@@ -624,37 +639,43 @@ def reviveM (f : Reviver) : Nat → Str → RV → Option RV × List Str
     let r := reviveObjM f fuel (RMs'.keys m) m
     (f name (.obj r.1), r.2 ++ [name])
   | _ + 1, name, v => (f name v, [name])
-/-- l.46-55: indices 0..length-1; undefined deletes the element (a hole), else it is redefined -/
+/-- indices 0..length-1; undefined deletes the element (a hole), else it is redefined.  (A `delete` of
+    a non-index name by the reviver does nothing to an array.) -/
 def reviveArrM (f : Reviver) : Nat → Nat → RVs → RVs × List Str
   | 0, _, _ => (.nil, [])
   | _ + 1, _, .nil => (.nil, [])
   | fuel + 1, i, .cons v t =>
     let r := reviveM f fuel (decimalNat i) v
     let rest := reviveArrM f fuel (i + 1) t
-    (.cons (match r.1 with | some x => x | none => .undef) rest.1, r.2 ++ rest.2)
-/-- l.57-65: `obj.enumerate` (object_class.go objectEnumerate) walks a SNAPSHOT of propertyOrder and
-    skips the names whose property is gone meanwhile; undefined deletes the property, anything else
-    redefines it in place -/
+    (.cons (match r.1.val with | some x => x | none => .undef) rest.1, r.2 ++ rest.2)
+/-- the names are collected first (`obj.enumerate` into a slice); then for each name
+    builtinJSONReviveWalk(obj, name) — `obj.get(name)` is undefined when the property is gone
+    meanwhile — and undefined deletes the property, anything else (re)defines it -/
 def reviveObjM (f : Reviver) : Nat → List Str → RMs' → RMs' × List Str
   | 0, _, cur => (cur, [])
   | _ + 1, [], cur => (cur, [])
   | fuel + 1, name :: names, cur =>
-    match RMs'.get name cur with
-    | none => reviveObjM f fuel names cur
-    | some v0 =>
-      let r := reviveM f fuel name v0
-      match r.1 with
-      | none =>
-        let rest := reviveObjM f fuel names (RMs'.del name cur)
-        (rest.1, r.2 ++ rest.2)
-      | some x =>
-        let rest := reviveObjM f fuel names (RMs'.set name x cur)
-        (rest.1, r.2 ++ rest.2)
+    let v0 := match RMs'.get name cur with
+      | some v => v
+      | none => .undef
+    let r := reviveM f fuel name v0
+    let cur1 := match r.1.del with
+      | some d => RMs'.del d cur
+      | none => cur
+    match r.1.val with
+    | none =>
+      let rest := reviveObjM f fuel names (RMs'.del name cur1)
+      (rest.1, r.2 ++ rest.2)
+    | some x =>
+      let rest := reviveObjM f fuel names (RMs'.set name x cur1)
+      (rest.1, r.2 ++ rest.2)
 end
 
 /-- JSON.parse(text, reviver) for the parsed value `v` whose object properties are in the order
     given (l.34-38: wrapper object with the empty key) -/
-def reviveTop (f : Reviver) (fuel : Nat) (v : RV) : Option RV × List Str := reviveM f fuel [] v
+def reviveTop (f : Reviver) (fuel : Nat) (v : RV) : Option RV × List Str :=
+  let r := reviveM f fuel [] v
+  (r.1.val, r.2)
 
 /-! ### Go's encoder -/
 
